@@ -41,3 +41,14 @@ Theorem C07_reachable_constraints_registered :
     RM (r_root (run builtins ops)) r0 i -> In c (route_cons r0) -> registered (run builtins ops) c = true.
 Proof. exact reachable_constraints_registered. Qed.
 Print Assumptions C07_reachable_constraints_registered.
+
+(* the only slicing in the error renderers: the two replace_range calls that draw the carets of a
+   DuplicateParameter error on a line of template.len() ASCII spaces.  Both ranges lie inside that line, in order,
+   for every such error the parser returns - for every input. *)
+From WF Require Import Proofs.UnmatchedP.
+Theorem C07_duplicate_carets_in_range :
+  forall (t0 t n : bytes) f fl s sl,
+    parse t0 = Err (EDuplicateParameter t n f fl s sl) ->
+    f + fl <= length t /\ s + sl <= length t /\ f + fl <= s.
+Proof. exact parse_dup_in_range. Qed.
+Print Assumptions C07_duplicate_carets_in_range.
